@@ -49,18 +49,41 @@ func (a c17Addr) text() string {
 	return c17Raw[int(a.N)%len(c17Raw)]
 }
 
+// numbers of the cases files in hexadecimal: Coq reads a 15-digit decimal number several
+// times slower, and reading the numbers is most of the time a cases file takes
+func c17Z(v int64) string {
+	switch {
+	case v < 0:
+		return fmt.Sprintf("(-0x%x)", -v)
+	case v < 10:
+		return fmt.Sprintf("%d", v)
+	}
+	return fmt.Sprintf("0x%x", v)
+}
+
 func (a c17Addr) coq() string {
 	switch a.K {
 	case 4:
-		return fmt.Sprintf("(A4 %d)", a.N)
+		return fmt.Sprintf("(A4 0x%x)", a.N)
 	case 6:
-		return fmt.Sprintf("(A6 %d %d)", a.Hi, a.Lo)
+		return fmt.Sprintf("(A6 0x%x 0x%x)", a.Hi, a.Lo)
 	}
 	return fmt.Sprintf("(ARaw %d)", int(a.N)%len(c17Raw))
 }
 
+// key of the throttler record an op on (address, action) belongs to, as the Coq term of type key
+func (a c17Addr) keyCoq(act int) string {
+	switch a.K {
+	case 4:
+		return fmt.Sprintf("(K4 0x%x, %d%%N)", a.N, act)
+	case 6:
+		return fmt.Sprintf("(K6 0x%x, %d%%N)", a.Hi, act)
+	}
+	return fmt.Sprintf("(KRaw %d, %d%%N)", int(a.N)%len(c17Raw), act)
+}
+
 type c17Op struct {
-	K    string  `json:"k"` // check, fail, cleanup, probe, attempt (sequential: check + fail when allowed)
+	K    string  `json:"k"` // check, fail, cleanup, probe, attempt (sequential: check + fail when allowed); mode 3: sleep (failing attempt whose delay is held), check, cleanup, probe
 	T    int64   `json:"t"`
 	A    c17Addr `json:"a"`
 	Act  int     `json:"act"`
@@ -105,7 +128,7 @@ func c17Run(c *c17Case) (trace []string, outs []string, blockedSeen int, failure
 		} else if err != nil {
 			v = "VNone"
 		}
-		trace = append(trace, fmt.Sprintf("(OCheck %s %s %d, %s)", coqZ(o.T), o.A.coq(), o.Act, v))
+		trace = append(trace, fmt.Sprintf("(OCheck %s %s %d, %s)", c17Z(o.T), o.A.coq(), o.Act, v))
 		outs = append(outs, v)
 		return f, err == nil
 	}
@@ -113,8 +136,8 @@ func c17Run(c *c17Case) (trace []string, outs []string, blockedSeen int, failure
 		last = -1
 		f(ctx)
 		failures++
-		trace = append(trace, fmt.Sprintf("(OFail %s %s %d, VDelay %s)", coqZ(o.T), o.A.coq(), o.Act, coqZ(int64(last))))
-		outs = append(outs, fmt.Sprintf("VDelay %d", int64(last)))
+		trace = append(trace, fmt.Sprintf("(OFail %s %s %d, VDelay %s)", c17Z(o.T), o.A.coq(), o.Act, c17Z(int64(last))))
+		outs = append(outs, "VDelay "+c17Z(int64(last)))
 	}
 	pending := map[string]ThrottleFunc{}
 	pkey := func(o c17Op) string { return fmt.Sprintf("%d|%s|%d", o.T, o.A.text(), o.Act) }
@@ -145,11 +168,11 @@ func c17Run(c *c17Case) (trace []string, outs []string, blockedSeen int, failure
 			fail(o, f)
 		case "cleanup":
 			th.cleanup(c17Epoch.Add(time.Duration(o.T)))
-			trace = append(trace, fmt.Sprintf("(OCleanup %s, VNone)", coqZ(o.T)))
+			trace = append(trace, fmt.Sprintf("(OCleanup %s, VNone)", c17Z(o.T)))
 			outs = append(outs, "VNone")
 		case "probe":
 			n := len(th.getEntries(o.A.text(), c17Actions[o.Act]))
-			trace = append(trace, fmt.Sprintf("(OProbe %s %s %d, VCount %d)", coqZ(o.T), o.A.coq(), o.Act, n))
+			trace = append(trace, fmt.Sprintf("(OProbe %s %s %d, VCount %d)", c17Z(o.T), o.A.coq(), o.Act, n))
 			outs = append(outs, fmt.Sprintf("VCount %d", n))
 		}
 	}
@@ -261,10 +284,10 @@ func c17Sanitize(c *c17Case) {
 
 func TestVerifC17(t *testing.T) {
 	env := getVerifEnv(t, "C17")
-	sink := newCaseSink(t, env, "C17", "corr.Run_C17", 100)
-	n := 400
+	sink := newCaseSink(t, env, "C17", "corr.Run_C17", 45)
+	n, nAging, nGated, nHub := 400, 60, 40, 1
 	if env.thorough() {
-		n = 6000
+		n, nAging, nGated, nHub = 6000, 900, 600, 8
 	}
 	var cases []*c17Case
 	if env.replay != "" {
@@ -274,15 +297,42 @@ func TestVerifC17(t *testing.T) {
 			cases = append(cases, &cs[i])
 		}
 	} else {
+		// directed members of the classes first, then the seeded generators
+		cases = append(cases, c17Directed()...)
 		for i := 0; i < n; i++ {
 			cases = append(cases, c17Gen(newVrng(env.seed, uint64(i)), i))
 		}
+		for i := 0; i < nAging; i++ {
+			cases = append(cases, c17GenAging(newVrng(env.seed, uint64(1100+i)), 1100+i))
+		}
+		for i := 0; i < nGated; i++ {
+			cases = append(cases, c17GenGated(newVrng(env.seed, uint64(20000+i)), 20000+i))
+		}
+		for i := 0; i < nHub; i++ {
+			cases = append(cases, c17GenHub(newVrng(env.seed, uint64(30000+i)), 30000+i))
+		}
 	}
+	gatedViolations, hubViolations := 0, 0
 	for _, c := range cases {
+		if c.Mode == 4 {
+			if hubViolations < 1 && !c17HubCase(t, c, sink) {
+				hubViolations++
+			}
+			continue
+		}
+		if c.Mode == 3 {
+			// at most two blocked observations per run (each costs its deadline)
+			if gatedViolations < 2 && !c17GatedCase(c, sink, env.replay == "") {
+				gatedViolations++
+			}
+			continue
+		}
 		trace, outs, blocked, failures := c17Run(c)
 		c.Outs = outs
-		term := fmt.Sprintf("mkcase %d %d %s", c.Id, c.Mode, coqList(trace))
+		proj, runs := c17Projections(c)
+		term := fmt.Sprintf("mkcase_iso %d %d %s %s", c.Id, c.Mode, coqList(trace), proj)
 		sink.count(fmt.Sprintf("mode%d", c.Mode))
+		sink.stats.Histogram["restricted_runs"] += runs
 		if blocked > 0 {
 			sink.count("cases_with_refusal")
 		}
@@ -303,7 +353,7 @@ func TestVerifC17(t *testing.T) {
 	if env.replay == "" {
 		c17Concurrent(t, env, sink)
 	}
-	sink.close("seeded sequential / ordered / free histories of check, fail, cleanup, probe on the real memoryThrottler with injected clock; non-trivial = at least one refusal or >= 3 recorded failures; distinct = distinct output sequences")
+	sink.close("seeded sequential / ordered / free histories of check, fail, cleanup, probe on the real memoryThrottler with injected clock, each also restricted to every one of its (address,kind) records and run again; histories with records of different ages on one address; schedules with held delays; non-trivial = at least one refusal or >= 3 recorded failures; distinct = distinct output sequences")
 }
 
 // Concurrent attempts (real goroutines): N failing attempts at one instant on a
